@@ -182,6 +182,25 @@ fn parse_response(raw: &[u8]) -> std::io::Result<HttpResponse> {
         })
         .collect();
 
+    // A declared Content-Length is a promise about the body: a peer that died
+    // (or a proxy that cut the stream) mid-body must not look like a short but
+    // successful response. Bytes past the declared length are dropped.
+    let headers: Vec<(String, String)> = headers;
+    let mut body = body;
+    if let Some(declared) = headers
+        .iter()
+        .find(|(k, _)| k == "content-length")
+        .and_then(|(_, v)| v.parse::<usize>().ok())
+    {
+        if body.len() < declared {
+            return Err(invalid(&format!(
+                "response body is {} bytes, shorter than its Content-Length of {declared}",
+                body.len()
+            )));
+        }
+        body.truncate(declared);
+    }
+
     Ok(HttpResponse {
         status,
         headers,
